@@ -73,7 +73,7 @@ def scanIdx (ourS theirS : Nat) : Nat → List TxO → Nat × Nat → Nat × Nat
 /-- `channeldb.HTLCEntry`. -/
 structure HEntry where
   idx : Nat
-  amt : Nat        -- msat
+  amt : Nat        -- satoshi (`htlc.Amt.ToSatoshis()` in NewHTLCEntryFromHTLC)
   hash : Nat
   cltv : Nat
   incoming : Bool
@@ -92,7 +92,7 @@ deriving DecidableEq, Repr
 
 def HEntry.cls (he : HEntry) : SC := if he.incoming then .offered he.hash else .received he.hash he.cltv
 
-def mkHEntry (p : Nat × Htlc) : HEntry := ⟨p.1, p.2.amt, p.2.hash, p.2.expiry, p.2.incoming⟩
+def mkHEntry (p : Nat × Htlc) : HEntry := ⟨p.1, p.2.amt / 1000, p.2.hash, p.2.expiry, p.2.incoming⟩
 
 /-- the non-dust HTLCs in the order `populateHtlcIndexes` visits them
     (`outgoingHTLCs` then `incomingHTLCs`; `Commit.htlcs` is kept in that order). -/
@@ -319,7 +319,7 @@ structure Matches (enc : SC → Nat) (dust : Nat) (e : RevEntry) (tx : List TxO)
   our_none : e.ourBal / 1000 < dust → e.ourIdx = outputIndexEmpty ∧ ∀ x ∈ tx, x.script ≠ enc .toRemote
   /-- every HTLC entry names an output with its amount, the HTLC script of its direction / hash
       (/ expiry), and its expiry as the sort's CLTV -/
-  htlc : ∀ he ∈ e.htlcs, tx[he.idx]? = some ⟨he.amt / 1000, enc he.cls, he.cltv⟩
+  htlc : ∀ he ∈ e.htlcs, tx[he.idx]? = some ⟨he.amt, enc he.cls, he.cltv⟩
   /-- no two HTLC entries share an index -/
   nodup : (e.htlcs.map HEntry.idx).Nodup
   /-- nor does an HTLC entry share its index with a commitment output -/
@@ -378,7 +378,7 @@ theorem entry_matches (enc : SC → Nat) (henc : ∀ a b, enc a = enc b → a = 
     ∃ e, mkEntry enc cm = some e ∧ Matches enc cfg.dustR e (txOf enc cm.outs) ∧
       e.ourBal = cm.our ∧ e.theirBal = cm.their ∧
       e.htlcs.map (fun he => (he.amt, he.hash, he.cltv, he.incoming)) =
-        (liveHtlcs cm).map (fun h => (h.amt, h.hash, h.expiry, h.incoming)) := by
+        (liveHtlcs cm).map (fun h => (h.amt / 1000, h.hash, h.expiry, h.incoming)) := by
   obtain ⟨outg, inc, hh, hout, hinc, houts⟩ := hs
   -- facts about outputs with the two commitment scripts
   have hR : ∀ x ∈ txOf enc cm.outs, x.script = enc .toRemote →
@@ -416,7 +416,7 @@ theorem entry_matches (enc : SC → Nat) (henc : ∀ a b, enc a = enc b → a = 
   refine ⟨_, rfl, ?_, rfl, rfl, ?_⟩
   · -- facts about the zipped entries
     have hent : ∀ he ∈ (idxs.zip (liveHtlcs cm)).map mkHEntry,
-        (txOf enc cm.outs)[he.idx]? = some ⟨he.amt / 1000, enc he.cls, he.cltv⟩ := by
+        (txOf enc cm.outs)[he.idx]? = some ⟨he.amt, enc he.cls, he.cltv⟩ := by
       intro he hm
       obtain ⟨p, hp, rfl⟩ := List.mem_map.mp hm
       have : (p.1, htOf enc p.2) ∈ idxs.zip ((liveHtlcs cm).map (htOf enc)) := by
@@ -498,7 +498,7 @@ theorem entry_matches (enc : SC → Nat) (henc : ∀ a b, enc a = enc b → a = 
       exact hab this.symm
   · simp only [List.map_map]
     have : ((fun he : HEntry => (he.amt, he.hash, he.cltv, he.incoming)) ∘ mkHEntry) =
-        ((fun h : Htlc => (h.amt, h.hash, h.expiry, h.incoming)) ∘ Prod.snd) := rfl
+        ((fun h : Htlc => (h.amt / 1000, h.hash, h.expiry, h.incoming)) ∘ Prod.snd) := rfl
     rw [this, ← List.map_map, List.map_snd_zip (by omega)]
 
 /-- `OutputIndexEmpty` exactly when trimmed: a transaction has far fewer than 65535 outputs
